@@ -257,7 +257,7 @@ def run(ctx):
                 sites[c["intended"]].add(re.sub(r"einsum \d+ ", "", c["site"]))
                 if len(c["violated"]) > 1:
                     multi += 1
-            else:
+            elif not c["intended"].startswith("extra:"):
                 not_instance[c["intended"]] += 1
     # every stated rule must actually have been exercised (a generator that degenerates is an alarm, not a pass)
     need = 8 if q else 40
